@@ -268,8 +268,16 @@ def confirm(ctx, rejected, inv, module="TraceBroker", limit=4):
         absence = '"e":"quiet"' in ev
         nconf += 1
         if nconf <= limit:
-            acc, info = single(ctx, sc, ("slow_" if absence else "re_") + sc["id"], module=module, invariants=inv, slow=absence,
-                               deviation=[k["deviation"] for k in devs])
+            try:
+                acc, info = single(ctx, sc, ("slow_" if absence else "re_") + sc["id"], module=module, invariants=inv, slow=absence,
+                                   deviation=[k["deviation"] for k in devs])
+            except vlib.MachineryError as e:
+                # the re-execution itself failed: a presence-type rejection stands as recorded, an absence-type one is not decided
+                ctx.notes.append("re-execution of %s failed: %s" % (sc["id"], str(e)[:200]))
+                if absence:
+                    ctx.cov["timing_unconfirmed"] = ctx.cov.get("timing_unconfirmed", 0) + 1
+                    continue
+                acc, info = True, None
             if acc:
                 if absence:
                     ctx.cov["timing_unconfirmed"] = ctx.cov.get("timing_unconfirmed", 0) + 1
